@@ -56,6 +56,7 @@ SPECS = [
     "rtc_dial_inner=p2p/transport/webrtc/transport.go:WebRTCTransport.dial",
     "ws_serve=p2p/transport/websocket/listener.go:listener.ServeHTTP",
     "ws_netaccept=p2p/transport/websocket/listener.go:httpNetListener.Accept",
+    "swarm_addlisten=p2p/net/swarm/swarm_listen.go:Swarm.AddListenAddr",
 ]
 
 
